@@ -499,13 +499,13 @@ REQUIRED_LABELS = {t: ["warm", "after-another-command", "success-shape", "outcom
 def stages(tier):
     return [EnumStage("matrix", _guard(lambda t, s: Cells(t, s)), run_case,
                       exhaustive={"thorough": True},
-                      budget_s={"quick": 150, "thorough": 2400}),
+                      budget_s={"quick": 450, "thorough": 2400}),
             EnumStage("well-formed-success-shapes", success_shape_cells, run_success_shape,
                       exhaustive={"quick": True, "thorough": True},
-                      budget_s={"quick": 60, "thorough": 60}),
+                      budget_s={"quick": 180, "thorough": 60}),
             EnumStage("after-other-outcomes", _guard(cross_cells), run_case,
                       exhaustive={"quick": True, "thorough": True},
-                      budget_s={"quick": 60, "thorough": 600}),
+                      budget_s={"quick": 180, "thorough": 600}),
             EnumStage("after-a-successful-run", _guard(lambda t, s: WarmCells(t, s)), run_case,
                       exhaustive={"quick": False, "thorough": False},
-                      budget_s={"quick": 150, "thorough": 600})]
+                      budget_s={"quick": 450, "thorough": 600})]
